@@ -21,6 +21,10 @@ def run (line : String) : String :=
       let sda := sd.toArray
       out (diag (fun i : Fin n => sda[i.1]!) (getM z k n))
     | _, _, _, _ => "bad-op"
+  | ["constMulRoot", n, m, sc, r] =>
+    match n.toNat?, m.toNat?, parseRats? sc, parseMat? r with
+    | some n, some m, some [sc], some r => out (constMulRoot sc (getM r n m))
+    | _, _, _, _ => "bad-op"
   | [op, nb, n, k, x] =>
     match nb.toNat?, n.toNat?, k.toNat?, parseMat? x with
     | some nb, some n, some k, some x =>
@@ -39,6 +43,27 @@ def run (line : String) : String :=
         out (interp idxf (getM val r q) (getM x k nBase))
       else "bad-op"
     | _, _, _, _, _, _, _ => "bad-op"
+  | ["ciq", q, n, k, w, sols] =>
+    -- sols: Q*k rows (q-major), each of n entries
+    match q.toNat?, n.toNat?, k.toNat?, parseRats? w, parseMat? sols with
+    | some q, some n, some k, some w, some sols =>
+      let wa := w.toArray
+      out (ciq (Q := q) (fun i => wa[i.1]!) (fun qi => getM (sols.extract (qi.1 * k) (qi.1 * k + k)) k n))
+    | _, _, _, _, _ => "bad-op"
+  | ["kron", n1, m1, n2, m2, a, b] =>
+    match n1.toNat?, m1.toNat?, n2.toNat?, m2.toNat?, parseMat? a, parseMat? b with
+    | some n1, some m1, some n2, some m2, some a, some b =>
+      if h : 0 < n2 then if h' : 0 < m2 then out (kronFlat (getM a n1 m1) (getM b n2 m2) h h') else "bad-op" else "bad-op"
+    | _, _, _, _, _, _ => "bad-op"
+  | ["shape", rb, batch, n, m, m', k] =>
+    -- batch shapes as comma lists, "-" = empty
+    let pl := fun (s : String) => if s = "-" then some [] else (s.splitOn ",").mapM String.toNat?
+    match pl rb, pl batch, n.toNat?, m.toNat?, m'.toNat?, k.toNat? with
+    | some rb, some batch, some n, some m, some m', some k =>
+      match genericShape rb batch n m m' k with
+      | some l => ",".intercalate (l.map toString)
+      | none => "none"
+    | _, _, _, _, _, _ => "bad-op"
   | _ => "bad-op"
 
 def main : IO Unit := do
